@@ -6,8 +6,7 @@ ROOT = os.path.dirname(os.path.dirname(os.path.abspath(__file__)))
 sd = sys.argv[1]
 tmp = tempfile.mkdtemp(prefix="vxseed_", dir="/tmp")
 try:
-    os.makedirs(os.path.join(tmp, "rust", "altrios-core"))
-    shutil.copytree("/repo/rust/altrios-core/src", os.path.join(tmp, "rust", "altrios-core", "src"))
+    shutil.copytree("/repo/rust", os.path.join(tmp, "rust"), ignore=shutil.ignore_patterns("target"))
     r = subprocess.run(["patch", "-p1", "-d", tmp, "-i", os.path.join(sd, "patch.diff")], capture_output=True, text=True)
     if r.returncode != 0:
         print("PATCH FAILED", r.stdout, r.stderr); sys.exit(2)
